@@ -34,6 +34,8 @@ open ZnVerif.Model.Containers
 inductive Elem where
   | num (q : Int)
   | txt (hex : String)
+  /-- 空 stored as an element -/
+  | nul
   deriving DecidableEq, Repr
 
 inductive Arg where
@@ -44,11 +46,13 @@ inductive Arg where
 def elemEq : Elem → Elem → Bool
   | .num a, .num b => a == b
   | .txt a, .txt b => a == b
+  | .nul, .nul => true
   | _, _ => false
 
 def elemStr : Elem → Option String
   | .txt h => some h
   | .num _ => none
+  | .nul => none
 
 /-- flat elements: nothing below them is a dictionary -/
 def noSub : Elem → String → Option Elem := fun _ _ => none
@@ -63,6 +67,7 @@ def parseElem? (s : String) : Option Elem :=
   if s.startsWith "n" then (parseInt? (tl s)).map (fun n => .num (4 * n))
   else if s.startsWith "q" then (parseInt? (tl s)).map .num
   else if s.startsWith "t" then some (.txt (tl s))
+  else if s == "z" then some .nul
   else none
 
 def parseElems (s : String) : List Elem :=
@@ -74,6 +79,7 @@ def parseArg? (s : String) : Option Arg :=
 def elemTok : Elem → String
   | .num q => if q % 4 == 0 then "n" ++ toString (q / 4) else "q" ++ toString q
   | .txt h => "t" ++ h
+  | .nul => "null"
 
 /-- hex of an ASCII string -/
 def asciiHex (s : String) : String :=
@@ -89,6 +95,7 @@ def quarterStr (q : Int) : String :=
 def elemShow : Elem → String
   | .num q => asciiHex (quarterStr q)
   | .txt h => h
+  | .nul => "e7a9ba"
 
 def commaHex : String := "efbc8c"   -- "，"
 
@@ -253,6 +260,7 @@ def parseKVs (s : String) : List (String × Elem) :=
 def ivKey : Elem → String
   | .txt h => h
   | .num q => asciiHex (quarterStr q)
+  | .nul => ""   -- the harness leaves the key empty for a non-text, non-number member
 
 inductive DOp where
   | core (op : DictOp Elem)
